@@ -141,13 +141,18 @@ static void do_mat(vh::Out &o, long long ci, const std::vector<std::string> &t)
     for (size_t i = 0; i < ns; i++)
         s[i] = vh::parse_u64(t[3 + i]);
     size_t nm = atoi(t[3 + ns].c_str());
-    // coefficient array: aligned copy for the _a variants, deliberately misaligned (8 mod 32) copy for the others
+    // coefficient array: for the _a variants and for every other call of the others an exact-extent copy that ends at an
+    // inaccessible page (32-byte aligned start: nm*8 is a multiple of 32); otherwise a deliberately misaligned (8 mod 32) copy
     std::vector<uint64_t> store(nm + 8);
     bool aligned = k.size() > 2 && k.substr(k.size() - 2) == "_a";
     uint64_t *base = store.data();
     while (((uintptr_t)base) % 32 != 0)
         base++;
-    uint64_t *m = aligned ? base : base + 1;
+    bool exact = aligned || (ci % 2 == 0);
+    vh::GBuf gm;
+    if (exact)
+        gm = vh::galloc(nm, 0);
+    uint64_t *m = exact ? gm.p : base + 1;
     for (size_t i = 0; i < nm; i++)
         m[i] = vh::parse_u64(t[4 + ns + i]);
     alignas(64) uint64_t r[24] = {0};
@@ -214,6 +219,8 @@ static void do_mat(vh::Out &o, long long ci, const std::vector<std::string> &t)
     o.w64arr("m", m, nm);
     o.w64arr("r", r, nr);
     o.end();
+    if (exact)
+        vh::gfree(gm);
 }
 
 int main(int argc, char **argv)
